@@ -613,7 +613,7 @@ def failure_items(fams, all_variants):
             for e in m.edges:
                 if e.phony:
                     continue
-                for kind in ("fail-before", "fail-after"):
+                for kind in ("fail-before", "fail-after", "term-after"):
                     for t in fam.targets:
                         if t and m.producer(t) is None:
                             continue
@@ -625,6 +625,8 @@ def failure_items(fams, all_variants):
                                 prefixes.append(["b:" + t, "e:" + s])
                         for o in e.outs:
                             prefixes.append(["b:" + t, "x:" + o])
+                        if kind == "term-after":
+                            prefixes = prefixes[:2]   # death by a fatal signal: fresh tree and the first edited prefix
                         for pre in prefixes:
                             for k in (1, 0):
                                 for mode in nx.MODES:
@@ -864,7 +866,7 @@ def main():
                 "per file and one D:), x modes {--jobs 1, --jobs 4} x {--db, --no-db}; each history is replayed from scratch in a "
                 "fresh sandbox, one llbuild process per build, and its LAST build is judged (contents = reference, ordering, "
                 "must-run causes, rerun-without-cause, then an immediate null build in the db modes); " + text +
-                "; failure items: (variant, failing command, fail-before|fail-after, target, prefix in {fresh, build+edit of each "
+                "; failure items: (variant, failing command, fail-before|fail-after|term-after (the shell running the command dies of SIGTERM after the outputs were written), target, prefix in {fresh, build+edit of each "
                 "source, build+delete of its output}, -k 1|0, mode): failing build, second failing build, repair, build, null build. "
                 "evaluations = histories + failure items executed; distinct_nontrivial = histories with >= 2 builds whose last "
                 "build executed at least one command + failure items in which the failing command was actually reached")
